@@ -769,6 +769,16 @@ func (e *Env) builtin(name string, x *ast.CallExpr) (Val, bool) {
 		}
 		a, b := e.eval(arg(0)), e.eval(arg(1))
 		return boolVal(app("str.contains", a.L[0], b.L[0])), true
+	case "refOf":
+		// identity of the object behind a pointer or interface value (0 for nil)
+		a := e.eval(arg(0))
+		switch len(a.L) {
+		case 1:
+			return Val{Typ: tInt, L: []T{a.L[0]}}, true
+		case 2:
+			return Val{Typ: tInt, L: []T{a.L[1]}}, true
+		}
+		e.fail("refOf() wants a pointer or interface value")
 	case "offset":
 		// position of a slice's first element in its backing array
 		a := e.eval(arg(0))
